@@ -8,6 +8,10 @@ def run(ctx):
     for tags in (["verif"] + (["verif poll_opt gc_opt"] if ctx.thorough else [])):
         t = system.record(ctx, "sys-" + tags.replace(" ", "+"), tags=tags)
         system.validate(ctx, t, ["TrLife"], "life cycle, " + tags)
+    if vlib.have_strace():
+        # a loop that ends through its error exit (accept failing for good) owes its connections their OnClose too
+        t = system.record(ctx, "accept-fatal", test="TestVerifFaults", env={"VERIF_FAULT_SET": "fatal"})
+        system.validate(ctx, t, ["TrLife"], "engine ended by a fatal accept error")
     t = system.record(ctx, "client", test="TestVerifClient")
     system.validate(ctx, t, ["TrLife"], "client engine (Dial / Enroll), life cycle")
     ctx.assumptions += system.SYS_ASSUME
